@@ -1,8 +1,9 @@
 \* edge emission, parameters focus: block > 2 components sharing definitions, all keep-sets (thorough)
 CONSTANTS N = 3  Par = {"p", "q"}  NVal = 2  NGrid = 2  MaxDepth = 2  MaxLevel = 4
-          GridSlot = "stack"  PickleSerial = "fresh"
+          GridSlot = "stack"  PickleSerial = "fresh"  DbSerial = "max"
 CONSTANTS Keeps <- KeepsFull  Acts <- ActsParams  Parent0 <- ParentA  Cls0 <- ClsA
           ParOf <- McParOf  GridCls <- McGridCls  MatCls <- McMatCls
+          DbCls <- McDbCls  CopyCls <- McAllCls  CallsOf <- McCallsOf
 ACTION_CONSTRAINT Emit
 INIT Init
 NEXT Next
